@@ -3,7 +3,7 @@ CONSTANTS
   Peers = {"p1", "p2"}
   Self = "self"
   MaxEpoch = 3
-  Defects = {"StaleLeftEpoch", "SelfNodeLeft", "StickyLeftFilter"}
+  Defects = {"StaleLeftEpoch", "LateStartReassign", "SelfNodeLeft", "StickyLeftFilter"}
   MaxArmed = 2
 CONSTRAINT Bound
 VIEW View
